@@ -218,7 +218,8 @@ MUTANTS = {
     "cdf-shift": ("Source/Lib/Common/Codec/EbBitstreamUnit.c",
                   "        v = ((r >> 8) * (uint32_t)(fh >> EC_PROB_SHIFT) >> (7 - EC_PROB_SHIFT - CDF_SHIFT)) +\n            EC_MIN_PROB * (N - (s + 0));\n        l += r - u;",
                   "        v = ((r >> 8) * (uint32_t)(fh >> EC_PROB_SHIFT) >> (7 - EC_PROB_SHIFT - CDF_SHIFT)) +\n            EC_MIN_PROB * (N - (s + 1));\n        l += r - u;"),
-    "normalize-flush": ("Source/Lib/Common/Codec/EbBitstreamUnit.c", "        if (s >= 8) {\n            assert(offs < storage);", "        if (s > 8) {\n            assert(offs < storage);"),
+    "done-fewer-bits": ("Source/Lib/Common/Codec/EbBitstreamUnit.c", "    s = 10;\n    m = 0x3FFF;", "    s = 9;\n    m = 0x3FFF;"),
+    "done-mask": ("Source/Lib/Common/Codec/EbBitstreamUnit.c", "    s = 10;\n    m = 0x3FFF;", "    s = 10;\n    m = 0x7FFF;"),
     "carry-drop": ("Source/Lib/Common/Codec/EbBitstreamUnit.c", "        out[offs] = (uint8_t)c;\n        c >>= 8;", "        out[offs] = (uint8_t)c;\n        c >>= 9;"),
     "tell-low": ("Source/Lib/Common/Codec/EbBitstreamUnit.c", "return (enc->cnt + 10) + enc->offs * 8;", "return (enc->cnt + 2) + enc->offs * 8;"),
     "writer-adapt-rate": ("Source/Lib/Common/Codec/EbCabacContextModel.h",
